@@ -90,6 +90,23 @@ def case_exchange(p):
             except Exception as e:  # noqa: BLE001
                 out.append((f"verify-raises:{type(e).__name__}", {**d, "bit": bit}))
                 break
+        # truncated proofs: every proper prefix and every proper suffix (a suffix is judged only when a dropped leading byte is non-zero:
+        # dropping leading zero bytes leaves the same number)
+        M2 = ex.M2_server
+        for n in range(0, len(M2)):
+            for piece, kind in ((M2[:n], "prefix"), (M2[len(M2) - n :] if n else b"", "suffix")):
+                if kind == "suffix" and not any(M2[: len(M2) - n]):
+                    continue
+                try:
+                    if c.verify_servers_proof_bytes(bytes(piece)):
+                        out.append((f"controller-accepts-truncated-accessory-proof:{kind}", {**d, "kept_bytes": n}))
+                        break
+                except Exception as e:  # noqa: BLE001
+                    out.append((f"verify-raises:{type(e).__name__}", {**d, "kept_bytes": n, "kind": kind}))
+                    break
+            else:
+                continue
+            break
         # a proof for a different exchange (other b) must be rejected as well
         other = srp.Exchange(G, USER, code, salt, a, b + 1)
         if c.verify_servers_proof_bytes(other.M2_server):
